@@ -120,6 +120,10 @@ class Token:
     def is_a(self, token_type) -> bool:
         return self._token_type is token_type
 
+    def is_mark(self, text) -> bool:
+        # A piece of punctuation, as opposed to a quoted string spelling it.
+        return self._token_type is TokenTypes.MARK and self._content == text
+
     def is_any(self, *token_types) -> bool:
         return self._token_type in (token_types)
 
@@ -138,8 +142,9 @@ class Token:
     @property
     def is_binop(self):
         return (self.is_a(TokenTypes.COMPARE)
-                or self.content in '+-*/%^'
-                or self.content in ('and', 'or'))
+                or (self.is_a(TokenTypes.MARK)
+                    and self.content in ('+', '-', '*', '/', '%', '^'))
+                or self.is_any(TokenTypes.AND, TokenTypes.OR))
 
     @property
     def line_number(self):
@@ -147,6 +152,8 @@ class Token:
 
     @property
     def prec(self):
+        if self.is_a(TokenTypes.LITERAL_STRING):
+            return -1
         return {
             'not': 1,
             'or': 2,
@@ -167,6 +174,6 @@ class Token:
 
     @property
     def assoc(self):
-        if self.content in ('not', '^'):
+        if self.is_a(TokenTypes.NOT) or self.is_mark('^'):
             return Assoc.RIGHT
         return Assoc.LEFT
